@@ -111,9 +111,10 @@ def enum_exprs(tier):
         yield from CHAINS4
     for x in [CH(el) for el in E1] + CHAINS2 + CHAINS3:
         yield ["not", x]
+    pool = BIN_POOL if tier == "thorough" else BIN_POOL[::2]
     for op in H.BINOPS:
-        for x in BIN_POOL:
-            for y in BIN_POOL:
+        for x in pool:
+            for y in pool:
                 yield [op, x, y]
     for el in EXT_ELEMS:                     # combined patterns that are extended further
         for x in EXT_POOL:
@@ -968,7 +969,7 @@ def explore(ctx: runner.Ctx):
     sizes = ", ".join(f"{s}={len(stack_set(s)[0])}" for s in sets)
     ctx.mark_exhaustive(
         f"{n_expr} enumerated expressions (atoms, P-chains of length<={4 if ctx.tier == 'thorough' else 3}, their "
-        f"negations, all |&^ pairs of a {len(BIN_POOL)}-pattern pool, extended combined patterns, + of chains, "
+        f"negations, all |&^ pairs of a {len(BIN_POOL) if ctx.tier == 'thorough' else len(BIN_POOL[::2])}-pattern pool, extended combined patterns, + of chains, "
         f"checker/pattern mixes) x every stack of the sets {sizes} (D*: all stacks over a {len(ALPHA)}-location "
         f"alphabet of depth 1-2 / 3; R*: all stacks of depth 3 / 4 over a {len(RALPHA)}-location alphabet); "
         f"{n_laws} identity/law instances compared over the same sets"
